@@ -37,7 +37,7 @@ class _FaultyExtSink(S.ExtSink):
 
 class C10(Prop):
     id = 'C10'
-    budgets = {'quick': 4000, 'thorough': 60000}
+    budgets = {'quick': 4000, 'thorough': 40000}
     time_limit = {'quick': 60, 'thorough': 600}
     rule = ('1-2 runs of 0-25 status events over 3 test ids x 4 route codes (None, "0", "1", "0/1") x None/inprogress/6 final statuses/'
             '"unknown" (repeated finals, events after a final, ids re-used on other routes) x tag sets (None, empty, 1-2 tags; set or frozenset) '
